@@ -4,6 +4,7 @@ package main
 // C07 — every proof served verifies; plotting reads are complete
 
 import (
+	"go/constant"
 	"fmt"
 	"go/token"
 	"go/types"
@@ -171,6 +172,11 @@ func isNilErrorReturn(r *ssa.Return) bool {
 			}
 		case *ssa.Call, *ssa.Extract:
 			if cl, ok := root.(*ssa.Call); ok && (isCallAny(cl, "errors.New", "fmt.Errorf") || strings.HasSuffix(calleeID(cl), "/errors.New") || strings.HasSuffix(calleeID(cl), "/errors.Errorf")) {
+				return
+			}
+			// grpc: status.New(code, msg).Err() / status.Error(code, msg) with a constant code other than OK (0)
+			// is a non-nil error (the library's contract)
+			if cl, ok := root.(*ssa.Call); ok && grpcStatusError(cl) {
 				return
 			}
 			// known non-nil if the return is dominated by the non-nil edge of a test of this value
@@ -662,6 +668,13 @@ func checkC10(c *Ctx) Meta {
 	delete(c.Rules, "C07-OWN")
 	delete(c.Floors, "C07-OWN")
 	checkMapALoadedByProgressOnly(c, "C10-READY")
+	// a space opens as complete only if what it was opened from passed the open checks: OpenDB cannot
+	// succeed past a map whose load or header check failed (the C11 open-path rule as a premise — a
+	// missing map A that is waved through makes a half-plotted space look finished)
+	c.Rule("C10-OPENHDR", "OpenDB cannot succeed after a map load without that map's own header having matched the name (the C11 open-path rule, here as the premise of 'never falsely complete')", 4)
+	c.pushAlias("C11-HEADER", "C10-OPENHDR")
+	checkHeaderVsName(c)
+	c.popAlias()
 	c.Rule("C10-KEEPER", "the keeper never takes an unfinished plot for a finished one: after a plot run the plotter moves the space to ready or mining only behind `Progress() >= 100` of the plotted space, evaluated after Plot returned", 2)
 	checkStep3(c, "C10-KEEPER", pkgCapacity, "capacity")
 	c.Rule("C10-READY", "readiness is derived from B's checkpoint: HashMapB.Progress compares checkpoint with volume; MassDBV1.Progress forwards it; NewWorkSpace stores Ready only under that flag; OpenDB loads map A whenever B is not final", 4)
@@ -717,6 +730,8 @@ func checkC07(c *Ctx) Meta {
 	c.Rule("C07-READY", "only a complete table serves proofs: readiness is derived from map B's checkpoint (HashMapB.Progress, MassDBV1.Progress, NewWorkSpace, OpenDB — the C10-READY rules), so a space interrupted in the second pass is re-plotted, not mined", 4)
 	checkReadyRules(c, "C07-READY")
 	checkMapALoadedByProgressOnly(c, "C07-READY")
+	c.Rule("C07-LOADRO", "opening and reading a plot file never writes it: no write to an *os.File (Write, WriteAt, WriteString, Truncate) is reachable, through the package's own functions, from loadHashMap / LoadHashMap, the Get methods of both maps, GetProof, ReadCheckpoint or Progress — the stored table changes only through the plotting passes and their checkpoints", 8)
+	checkLoadReadOnly(c, "C07-LOADRO")
 	c.Rule("C07-FORWARD", "the keeper forwards proof and error of MassDB.GetProof unchanged and the miner drops entries whose Error is non-nil; every proof task handed to the worker pool works on the space of its own loop iteration (no loop variable or per-loop struct shared between tasks)", 2)
 	checkLoopVarCapture(c, "C07-FORWARD", []string{pkgCapacity, pkgSkchia})
 
@@ -822,6 +837,23 @@ func checkC07(c *Ctx) Meta {
 	}
 	_ = nRead
 
+	// no storage error of a plotting pass is taken for the end of the input (the C10 error rule as a
+	// premise: a truncated map A that ends the pair loop "normally" yields a complete-looking table with
+	// proofs missing)
+	c.Rule("C07-ERR", "no storage error on the plotting path is dropped: Sync, WriteAt, Seek, Read, WriteToWriter, UpdateCheckpoint results reach the pass's return as a non-nil error (the C10 rule as a premise)", 14)
+	{
+		pre := c.Fn("poc/engine/massdb/massdb.v1", "(*MassDBV1).prePlotWork")
+		plot := c.Fn("poc/engine/massdb/massdb.v1", "(*MassDBV1).plotWork")
+		upd := c.Fn("poc/engine/massdb/massdb.v1", "(*HashMap).UpdateCheckpoint")
+		var scope []*ssa.Function
+		for _, f := range []*ssa.Function{pre, plot, upd} {
+			if f != nil {
+				scope = append(scope, bodyFns(f, nil)...)
+			}
+		}
+		runErrflow(c, errflowCfg{rule: "C07-ERR", scope: scope, classK: plotErrClass,
+			strict: func(fn *ssa.Function, call *ssa.Call) bool { return true }})
+	}
 	c.Rule("C07-KEEPER", "a proof is served only from a completed table: after a plot run the keeper moves the space to ready or mining only behind `Progress() >= 100` of the plotted space, evaluated after Plot returned (the C10 keeper rule, here as the premise of 'a proof is served whenever one exists')", 2)
 	checkStep3(c, "C07-KEEPER", pkgCapacity, "capacity")
 	checkFreshWindow(c, "C07-FRESH")
@@ -2001,4 +2033,93 @@ func phiBlockOf(st *ssa.Store) *ssa.BasicBlock {
 		return phi.Block()
 	}
 	return nil
+}
+
+// grpcStatusError: status.New(k, …).Err(), status.Error(k, …) or status.Errorf(k, …) of google.golang.org/grpc/status
+// with a constant code k != 0 (codes.OK): the library returns a non-nil error for every code but OK.
+func grpcStatusError(cl *ssa.Call) bool {
+	id := calleeID(cl)
+	nonOK := func(v ssa.Value) bool {
+		if cv, ok := v.(*ssa.Convert); ok {
+			v = cv.X
+		}
+		if cv, ok := v.(*ssa.ChangeType); ok {
+			v = cv.X
+		}
+		k, ok := v.(*ssa.Const)
+		return ok && k.Value != nil && k.Value.Kind() == constant.Int && k.Int64() != 0
+	}
+	switch {
+	case strings.HasSuffix(id, "grpc/status.Error"), strings.HasSuffix(id, "grpc/status.Errorf"):
+		return len(cl.Call.Args) > 0 && nonOK(cl.Call.Args[0])
+	case strings.HasSuffix(id, "grpc/internal/status.Status).Err"), strings.HasSuffix(id, "grpc/status.Status).Err"):
+		if len(cl.Call.Args) == 0 {
+			return false
+		}
+		nw, ok := cl.Call.Args[0].(*ssa.Call)
+		if !ok {
+			return false
+		}
+		nid := calleeID(nw)
+		if !(strings.HasSuffix(nid, "grpc/status.New") || strings.HasSuffix(nid, "grpc/status.Newf") || strings.HasSuffix(nid, "grpc/internal/status.New")) {
+			return false
+		}
+		return len(nw.Call.Args) > 0 && nonOK(nw.Call.Args[0])
+	}
+	return false
+}
+
+// checkLoadReadOnly (C07-LOADRO): the functions that open an existing map file or read from it do not write it.
+func checkLoadReadOnly(c *Ctx, rule string) {
+	short := "poc/engine/massdb/massdb.v1"
+	isWrite := func(in ssa.Instruction) bool {
+		if _, ok := in.(*ssa.Call); !ok {
+			if _, isD := in.(*ssa.Defer); !isD {
+				return false
+			}
+		}
+		switch calleeID(in) {
+		case "(*os.File).Write", "(*os.File).WriteAt", "(*os.File).WriteString", "(*os.File).Truncate", "os.Truncate", "os.WriteFile", "io/ioutil.WriteFile":
+			return true
+		}
+		return false
+	}
+	for _, name := range []string{"loadHashMap", "LoadHashMap", "(*HashMapA).Get", "(*HashMapB).Get", "(*MassDBV1).Get", "(*MassDBV1).GetProof", "(*HashMap).ReadCheckpoint", "(*MassDBV1).Progress"} {
+		f := c.MustFn(rule, short, name)
+		if f == nil {
+			continue
+		}
+		key := FuncName(f) + ":writes-nothing"
+		if mayDo(f, isWrite) {
+			// name the site
+			pos := f.Pos()
+			var find func(h *ssa.Function, depth int, seen map[*ssa.Function]bool) bool
+			find = func(h *ssa.Function, depth int, seen map[*ssa.Function]bool) bool {
+				if h == nil || seen[h] {
+					return false
+				}
+				seen[h] = true
+				for _, g := range withClosures(h) {
+					for _, b := range g.Blocks {
+						for _, in := range b.Instrs {
+							if isWrite(in) {
+								pos = in.Pos()
+								return true
+							}
+							if depth > 0 {
+								if k := helperCallee(in, pkgOf(h)); k != nil && find(k, depth-1, seen) {
+									return true
+								}
+							}
+						}
+					}
+				}
+				return false
+			}
+			find(f, summaryDepth, map[*ssa.Function]bool{})
+			c.Bad(rule, key, c.Pos(pos), "a write to the plot file is reachable from "+FuncName(f)+": opening or reading an existing (possibly completely plotted) map file changes stored bytes")
+		} else {
+			c.OK(rule, key, c.Pos(f.Pos()), "no file write reachable through the package's own functions")
+		}
+	}
 }
